@@ -29,6 +29,12 @@ SRC = (
     "    _trace.append(('part', x))\n"
     "    return InMemoryPartition({'a': x, 'b': [x, 'payload'], 'c': None})\n"
     "@m.memento_function(version='1')\n"
+    "def child(x):\n"
+    "    _trace.append(('child', x))\n"
+    "    r = InMemoryPartition({'d': [x, 'own']})\n"
+    "    r._merge_parent = part(x)\n"        # the parent partition is computed (and memoized) inside the child's body
+    "    return r\n"
+    "@m.memento_function(version='1')\n"
     "def exc(x):\n"
     "    _trace.append(('exc', x))\n"
     "    raise ValueError('boom %r' % (x,))\n"
@@ -43,13 +49,15 @@ SCENARIOS = [
     ("S5-rememoize-after-forget", ["f", "forget-f"], "f", ["f", "g"]),
     ("S6-exception-result", [], "exc", ["exc"]),
     ("S7-second-call-of-function-with-stored-sibling", ["g"], "f", ["f", "g"]),
+    # the fault hits while the PARENT partition (computed inside the child's body) or the child itself is being written
+    ("S8-merged-partition-whose-parent-is-computed-inside", [], "child", ["child", "part"]),
 ]
 STORES = ["fs", "fs+cache:1", "fs+meta"]
 
 
 def _call(prog, name):
     """returns a comparable outcome"""
-    fn = {"f": lambda: prog.f(1), "g": lambda: prog.g(1), "ko": lambda: prog.ko(1), "part": lambda: prog.part(1),
+    fn = {"f": lambda: prog.f(1), "g": lambda: prog.g(1), "ko": lambda: prog.ko(1), "part": lambda: prog.part(1), "child": lambda: prog.child(1),
           "exc": lambda: prog.exc(1), "forget-f": lambda: prog.f.forget(1)}[name]
     try:
         r = fn()
@@ -63,6 +71,7 @@ def _call(prog, name):
 EXPECTED = {
     "f": ("value", [1, "payload"]), "g": ("value", [1, "payload"]), "ko": ("value", [1, "o"]),
     "part": ("partition", {"a": 1, "b": [1, "payload"], "c": None}), "exc": ("raised", "ValueError", "boom 1"),
+    "child": ("partition", {"a": 1, "b": [1, "payload"], "c": None, "d": [1, "own"]}),
 }
 
 
@@ -168,8 +177,8 @@ def _run(si, kind, k, vi, tsel):
     "C08.faults",
     covers=tuple(VARIANTS) + ("op:makedirs", "op:open", "op:write", "fault-on-link-file", "died", "error-reported"),
     split={"si": list(range(len(SCENARIOS))), "store": [0, 1, 2]},
-    bounds="7 memoization scenarios (cold call; result with the same bytes as a stored one; key override; partition of 3 members; "
-           "re-memoize after forget; exception result; sibling stored) x EVERY mutating file-system operation issued during the faulted call "
+    bounds="8 memoization scenarios (cold call; result with the same bytes as a stored one; key override; partition of 3 members; "
+           "re-memoize after forget; exception result; sibling stored; merged partition whose parent is computed and stored inside the faulted call) x EVERY mutating file-system operation issued during the faulted call "
            "(the fault-free trace is recomputed from the current code on every run) x 5 fault variants (die before / after, die after t "
            "bytes, ENOSPC before, ENOSPC/EFBIG after t bytes) x landed length t in {0, 1, half, all-but-one} x {fs, fs+cache, fs+separate "
            "metadata path}; then restart, call everything again (correct, no exception), again (nothing recomputed), restart, again",
